@@ -721,6 +721,40 @@ fn absurd_cases() -> Vec<AbsurdCase> {
             v.push(AbsurdCase { content: format!("#SHAPE=<{h}>\n{body}").into_bytes(), name: "abs.sfs".into() });
         }
     }
+    // every order of the pieces of a text header, and doubled / dropped pieces
+    {
+        let pieces = ["=", "<", "3", ">"];
+        let mut orders: Vec<Vec<&str>> = Vec::new();
+        fn permute<'a>(cur: &mut Vec<&'a str>, rest: &mut Vec<&'a str>, out: &mut Vec<Vec<&'a str>>) {
+            if rest.is_empty() {
+                out.push(cur.clone());
+                return;
+            }
+            for i in 0..rest.len() {
+                let x = rest.remove(i);
+                cur.push(x);
+                permute(cur, rest, out);
+                cur.pop();
+                rest.insert(i, x);
+            }
+        }
+        permute(&mut Vec::new(), &mut pieces.to_vec(), &mut orders);
+        for o in orders {
+            v.push(AbsurdCase { content: format!("#SHAPE{}\n1 2 3\n", o.concat()).into_bytes(), name: "abs.sfs".into() });
+        }
+        for extra in ["=<<3>", "=<3>>", "=<3><3>", "=>3<", "><3>", "=<>3", "=<3", "=3>", "=<3>x<", "=<3/>", "=</3>", "=<3//3>", "=<+3>", "=<-3>", "=< 3 >"] {
+            v.push(AbsurdCase { content: format!("#SHAPE{extra}\n1 2 3\n").into_bytes(), name: "abs.sfs".into() });
+        }
+    }
+    // shapes whose npy header length sweeps every residue modulo 64 (the writer pads to a multiple of
+    // 64): conversion to npy must never panic on a padding of 0 or 64 bytes
+    for c in crate::props::c15::residue_cases().into_iter().step_by(2) {
+        let n: usize = c.shape.iter().product();
+        if n <= 3000 {
+            let header: Vec<String> = c.shape.iter().map(|l| l.to_string()).collect();
+            v.push(AbsurdCase { content: format!("#SHAPE=<{}>\n{}\n", header.join("/"), vec!["1"; n].join(" ")).into_bytes(), name: "abs.sfs".into() });
+        }
+    }
     // very many axes of length 1: one value, but a header that outgrows what NPY 1.0 can declare
     // (65 535 bytes) when converted
     for axes in [5_000usize, 21_800, 22_000, 40_000] {
@@ -1154,7 +1188,7 @@ pub fn check(ctx: &Ctx) -> Check {
         }),
         Box::new(EnumPart {
             name: "absurd-shapes",
-            rule: "text headers declaring 0-length axes, products beyond 2^64, 40 axes and 5 000 .. 40 000 axes of length 1, malformed headers; every tuple of <=3 axis lengths over {0,1,2,3,2^32,2^63,2^64-1} in text (399 x 3 bodies) and over {0,1,2,2^32,2^64-1} in npy (155 x 3 data lengths); npy dicts with 0 / huge / empty / duplicate shapes, header lengths 0 .. 2^32-1, unknown versions; each through 16 view/fold/stat commands (every statistic family, so that the diagnostics for a wrong dimensionality are built too)",
+            rule: "text headers declaring 0-length axes, products beyond 2^64, 40 axes and 5 000 .. 40 000 axes of length 1, malformed headers (every order of the header's pieces `=`, `<`, `3`, `>`, doubled and dropped pieces); shapes sweeping every residue of the npy header length modulo 64; every tuple of <=3 axis lengths over {0,1,2,3,2^32,2^63,2^64-1} in text (399 x 3 bodies) and over {0,1,2,2^32,2^64-1} in npy (155 x 3 data lengths); npy dicts with 0 / huge / empty / duplicate shapes, header lengths 0 .. 2^32-1, unknown versions; each through 16 view/fold/stat commands (every statistic family, so that the diagnostics for a wrong dimensionality are built too)",
             exhaustive: true,
             cases: Box::new(|_| absurd_cases()),
             eval: Box::new(eval_absurd),
